@@ -1,6 +1,12 @@
-import Driver.Vectored
-import Driver.Sinks
-import Driver.Global
+#!/usr/bin/env python3
+"""Resolves merge conflicts in lean/Driver/Main.lean by taking the union of the `import Driver.X`
+lines and of the `("engine", Driver.X.handle)` entries found anywhere in the (conflicted) file."""
+import re, sys
+p = '/verif/lean/Driver/Main.lean' if len(sys.argv) < 2 else sys.argv[1]
+s = open(p).read()
+imports = list(dict.fromkeys(re.findall(r'^import (Driver\.\w+)', s, re.M)))
+entries = list(dict.fromkeys(re.findall(r'\("([\w-]+)",\s*(Driver\.[\w.]+)\)', s)))
+out = "\n".join(f"import {i}" for i in imports) + '''
 /-!
 `driver <engine>`: reads one request per line on stdin, prints one reply per line.
 Every engine is a pure function `String → String` of the request line (stateful models receive the
@@ -8,9 +14,7 @@ whole operation sequence in one line), so a disagreement replays from the line a
 -/
 
 def engines : List (String × (String → String)) := [
-  ("vectored", Driver.Vectored.handle),
-  ("sinks", Driver.Sinks.handle),
-  ("global", Driver.Global.handle)
+''' + ",\n".join(f'  ("{n}", {h})' for n, h in entries) + '''
 ]
 
 partial def loop (h : IO.FS.Stream) (out : IO.FS.Stream) (f : String → String) : IO Unit := do
@@ -30,3 +34,6 @@ def main (args : List String) : IO UInt32 := do
       return 0
     | none => IO.eprintln s!"unknown engine {name}"; return 2
   | _ => IO.eprintln "usage: driver <engine>"; return 2
+'''
+open(p, 'w').write(out)
+print("imports:", imports, "engines:", [n for n, _ in entries])
